@@ -47,6 +47,10 @@ type C16Scenario struct {
 	// ByOption: the registrations (of A, or the raw upcasters of C) are given to New as WithUpcast options,
 	// in order; a refused one is dropped silently, clears cannot be expressed and are skipped
 	ByOption bool `json:"by_option,omitempty"`
+	// TypedFirst (C): a typed upcaster (RegisterUpcast[UA, UB]) is registered before the raw ones and its source
+	// type is cleared again (ClearUpcastsForType) after them - bookkeeping that distinguishes typed from raw
+	// upcasters must not be thrown off by it
+	TypedFirst bool `json:"typed_first,omitempty"`
 }
 
 // Type names are arbitrary non-empty strings; the pool includes names containing a separator-like
@@ -56,6 +60,9 @@ var c16Names = []string{"a", "b:c", "a:b", "c", "b", "order.created/v2", "T6", "
 func c16Name(i int) string {
 	if i < 0 {
 		return ""
+	}
+	if i >= 1000 {
+		return fmt.Sprintf("L%d", i) // the large graphs of c16Large
 	}
 	return c16Names[i%len(c16Names)]
 }
@@ -122,6 +129,7 @@ func genC16(rt *rapid.T) core.Scenario {
 		sc.ViaSubscribe = rapid.IntRange(0, 2).Draw(rt, "viaSubscribe") == 2
 		sc.RegDuring = rapid.IntRange(0, 2).Draw(rt, "regDuring") == 2
 		sc.ByOption = rapid.IntRange(0, 2).Draw(rt, "byOption") == 2
+		sc.TypedFirst = !sc.ByOption && rapid.IntRange(0, 2).Draw(rt, "typedFirst") == 2
 	}
 	sc.Tape = core.DrawTape(rt, 200)
 	return sc
@@ -322,12 +330,18 @@ func (sc *C16Scenario) Execute(t *testing.T) *core.Outcome {
 		if len(sc.Ups) > 0 {
 			ctx := context.Background()
 			accepted := 0
+			if sc.TypedFirst {
+				eventbus.RegisterUpcast(bus, func(a UA) UB { return upAB(a) })
+			}
 			for _, u := range sc.Ups {
 				if sc.ByOption {
 					accepted++ // unobservable: the option drops a refused registration silently
 				} else if eventbus.RegisterUpcastFunc(bus, c16Name(u.From), c16Name(u.To), mkUp(u)) == nil {
 					accepted++
 				}
+			}
+			if sc.TypedFirst {
+				bus.ClearUpcastsForType(nameUA)
 			}
 			if accepted > 0 {
 				out.Fault("raw-upcaster-registered")
@@ -392,6 +406,35 @@ func TestC16(t *testing.T) {
 // c16Exhaustive enumerates every sequence of registrations/clears up to a bound over 3 names
 // (plus the invalid inputs) against the graph model. No scheduling is involved, so it runs
 // outside the simulator. Only worker 0 does it; the bound grows in the thorough tier.
+// c16Large: registries far larger than any bound an implementation might put on its cycle search. A chain of
+// 1 200 types whose last type is then pointed back at the first, and a hub with 1 200 targets one of which is
+// led back to the hub through one more type: both closing registrations must be refused, everything before
+// them accepted (checked against the reachability model, registration by registration).
+func c16Large(t *testing.T) int {
+	const n = 1200
+	chain := &C16Scenario{Names: 2}
+	for i := 0; i < n; i++ {
+		chain.Seq = append(chain.Seq, C16Op{Kind: "reg", A: 1000 + i, B: 1001 + i})
+	}
+	chain.Seq = append(chain.Seq, C16Op{Kind: "reg", A: 1000 + n, B: 1000}, C16Op{Kind: "reg", A: 1000 + n, B: 5000})
+	hub := &C16Scenario{Names: 2}
+	for i := 0; i < n; i++ {
+		hub.Seq = append(hub.Seq, C16Op{Kind: "reg", A: 9000, B: 2000 + i})
+	}
+	hub.Seq = append(hub.Seq, C16Op{Kind: "reg", A: 2000 + n - 1, B: 9001}, C16Op{Kind: "reg", A: 9001, B: 9000}, C16Op{Kind: "reg", A: 9001, B: 9002})
+	for _, sc := range []*C16Scenario{chain, hub} {
+		sc.MaxSteps = 200000
+		if out := sc.Execute(t); len(out.Violations) > 0 || out.HarnessErr != "" {
+			if out.HarnessErr != "" {
+				fmt.Printf("HARNESS-ERROR: large registry: %s\n", out.HarnessErr)
+				os.Exit(2)
+			}
+			core.EmitViolation(propC16, sc, out)
+		}
+	}
+	return 2
+}
+
 func c16Exhaustive(t *testing.T) {
 	if w := os.Getenv("VERIF_WORKER"); w != "" && w != "0" {
 		return
@@ -447,5 +490,6 @@ func c16Exhaustive(t *testing.T) {
 		}
 	}
 	rec(0)
+	count += c16Large(t)
 	core.NoteExhaustive("C16", fmt.Sprintf("all %d sequences of length 1..%d over an alphabet of %d operations on 3 type names", count, maxLen, len(alphabet)), count)
 }
